@@ -532,7 +532,9 @@ def execute(sc, ctx):
                 core = [f for f in frames if f.startswith(("_core:", "_actions:", "_typehints:"))]
                 frame = "cyclic-alias" if cyc else (core[-1] if core else "?")
             elif exc == "RecursionError":
-                frame = "cyclic-alias" if cyc else "loop:" + "+".join(sorted(set(f for f in frames[-40:] if not f.startswith(("_deprecated:", "_namespace:")))))[:160]
+                # named by the members of the loop: the frames that occur many times in the traceback (where the
+                # stack happened to overflow - a leaf frame - occurs once and does not enter the name)
+                frame = "cyclic-alias" if cyc else "loop:" + "+".join(sorted(f for f in set(frames) if frames.count(f) >= 5 and not f.startswith("_deprecated:")))[:200]
             else:
                 frame = frames[-1] if frames else "?"
             ctx.violation(
